@@ -6,7 +6,7 @@
    (gen_cross = model_cross).  Coordinates are exact rationals. *)
 From Coq Require Import String.
 From Coq Require Import ZArith QArith List Bool.
-From Verif Require Import Model.C15 Proofs.C15 Proofs.C15_persist Gen.PnpolyGen Bridge.C15_bridge.
+From Verif Require Import Model.C15 Proofs.C15 Proofs.C15_sweep Proofs.C15_persist Gen.PnpolyGen Bridge.C15_bridge.
 Import ListNotations.
 Open Scope Q_scope.
 
@@ -75,17 +75,21 @@ Theorem C15_invert_complement :
 Proof. exact gen_invert_complement. Qed.
 Print Assumptions C15_invert_complement.
 
-(* Complete finite sweep: every triangle with vertices on the 3x3 integer grid
-   and every query point of the 7x7 half-integer grid {-1/2..5/2}^2 off its
-   boundary: the result equals the parity of the winding number (computed
-   from quadrants, no ray) and the parity for the ray towards -x. *)
+(* Complete finite sweep (evaluated over Z, transferred by inject_Z): every
+   triangle with vertices on the 4x4 grid and every quadrilateral on the 3x3
+   grid (grid spacing 2, i.e. the unit grid scaled by 2; self-intersecting and
+   degenerate ones included) and every integer query point of [-1, 2k-1]^2
+   (the half-integer points of the unit grid) off the boundary: the result
+   equals the parity of the winding number (computed from quadrants, no ray)
+   and the parity for the ray towards -x. *)
 Theorem C15_sweep :
-  forall (poly : list pt) (p : pt),
-    length poly = 3%nat -> Forall (fun v => In v (grid_pts 3)) poly -> In p (half_pts 3) ->
-    on_boundary poly p = false ->
-    gen_pip poly p = winding_odd poly p
-    /\ gen_pip poly p = pip cross_left poly p
-    /\ (winding4 poly p mod 4 = 0)%Z.
+  forall (zpoly : list zpt) (zp : zpt),
+    (length zpoly = 3%nat /\ Forall (fun v => In v (zgrid 4)) zpoly /\ In zp (zquery 4))
+    \/ (length zpoly = 4%nat /\ Forall (fun v => In v (zgrid 3)) zpoly /\ In zp (zquery 3)) ->
+    on_boundary (map inj zpoly) (inj zp) = false ->
+    gen_pip (map inj zpoly) (inj zp) = winding_odd (map inj zpoly) (inj zp)
+    /\ gen_pip (map inj zpoly) (inj zp) = pip cross_left (map inj zpoly) (inj zp)
+    /\ (winding4 (map inj zpoly) (inj zp) mod 4 = 0)%Z.
 Proof. exact gen_sweep. Qed.
 Print Assumptions C15_sweep.
 
